@@ -115,6 +115,7 @@ struct Tiler<'a> {
     prev: u64,
     first: bool,
     expected_out: Vec<u8>,
+    turn: bool,
     writer: Writer<ShortSink>,
 }
 
@@ -125,6 +126,7 @@ impl<'a> Tiler<'a> {
             prev: 0,
             first: true,
             expected_out: Vec::new(),
+            turn: false,
             // the sink takes 1, 2, 3 or any number of bytes per write call, chosen by the input
             writer: Writer::new(ShortSink::new(match input.iter().fold(input.len(), |a, b| a.wrapping_mul(31).wrapping_add(*b as usize)) % 4 {
                 0 => usize::MAX,
@@ -209,7 +211,13 @@ impl<'a> Tiler<'a> {
                     loc.zero_spans += 1;
                 }
                 self.expected_out.extend_from_slice(span);
-                self.writer.write_event(ev.borrow()).map_err(|e| format!("writer error {}", e))?;
+                // by reference and by value in turn
+                self.turn = !self.turn;
+                if self.turn {
+                    self.writer.write_event(ev.borrow()).map_err(|e| format!("writer error {}", e))?;
+                } else {
+                    self.writer.write_event(ev.clone().into_owned()).map_err(|e| format!("writer error {}", e))?;
+                }
                 Ok(true)
             }
         }
